@@ -54,6 +54,9 @@ def seeds_table():
 			except Exception:
 				meta = {}
 		checks = []
+		if res[sid].get('obsolete'):
+			out.append('| %s | %s | %s | %s |' % (sid, str(meta.get('summary', ''))[:260].replace('|', '\\|').replace('\n', ' '), str(meta.get('needs', ''))[:200].replace('|', '\\|').replace('\n', ' '), 'OBSOLETE: ' + res[sid]['obsolete'][:400]))
+			continue
 		for p, r in sorted(res[sid].get('checks', {}).items()):
 			m = re.search(r'disagreements=(\d+) oracle-failures=(\d+)', r.get('summary', ''))
 			det = ('caught: exit 1, %d VIOLATION line(s)%s' % (r['violation_lines'], ', no-failing-input-found' if r.get('no_failing_input') else '')) if r['exit'] else 'MISSED (exit 0)'
